@@ -245,6 +245,13 @@ func main() {
 			} else {
 				for k, a := range answers {
 					c := ctx.cases[idx[k]]
+					if c.Impl == "?" {
+						// model-only question (e.g. do the HYPOTHESES of a theorem hold of this tested input?):
+						// nothing to compare, the model's answer is counted into the evidence
+						cmd, _, _ := strings.Cut(c.Line, " ")
+						res.Count("model." + cmd + ": " + a)
+						continue
+					}
 					if normAnswer(a) != normAnswer(c.Impl) {
 						res.Disagree(c.Line, c.Impl, a, c.Props)
 					}
